@@ -693,8 +693,8 @@ def compare_core(ctx, fl, f, ans, where):
     exp = [(int(it[0]), it[1], names[int(it[2])]) for it in items]   # statements the model created
     real = fl["created"]
     if wf != "1" or eae != "1":
-        ctx.corr_break("cfg:side-conditions", where, "well-formed program, edges leave from block ends",
-                       {"wf": wf, "edges_at_end": eae})
+        ctx.corr_break("cfg:side-conditions", where, "hypotheses of C21_unbound_use_is_checked: wf, graph_ok",
+                       {"wf": wf, "graph_ok": eae})
     if [(c["k"], c["name"]) for c in real] != [(k, n) for _, k, n in exp] or len(items) != len(exp):
         ctx.corr_break("cfg:stat-sequence", where, [(c["k"], c["name"]) for c in real],
                        [(k, n) for _, k, n in exp])
@@ -774,7 +774,8 @@ def build_all(ctx, mods):
     def cc(m):
         if status.get(m["name"]) is not None:
             return None
-        rc, err = cybuild.cc(os.path.join(W, m["name"] + ".c"), os.path.join(W, m["name"] + cybuild.EXT))
+        rc, err = cybuild.cc(os.path.join(W, m["name"] + ".c"), os.path.join(W, m["name"] + cybuild.EXT),
+                             cflags=["-O0"])
         return None if rc == 0 else "cc: " + err[-1500:]
     with cf.ThreadPoolExecutor(max_workers=8) as ex:
         for m, e in zip(mods, ex.map(cc, mods)):
@@ -830,7 +831,7 @@ def run(ctx):
     import C21_core as K
     combos = [(j, w) for ji, j in enumerate(K.JUMPS) for wi, w in enumerate(K.WRAPS)
               if not quick or (wi + ji) % 2 == 0]
-    reps = 1 if quick else 6
+    reps = 1 if quick else 12
     core_funcs = [(list(b), "fixed", ()) for b in K.FIXED_CORE]
     for rep in range(reps):
         for ci, (j, w) in enumerate(combos):
@@ -839,7 +840,7 @@ def run(ctx):
                                     contrast_prob=(1.0, 0.0, 0.6)[rep % 3],
                                     shape="ABAC"[(ci + rep) % 4] if rep % 3 == 0 else None)
             core_funcs.append((body, j, w))
-    ncm = 3 if quick else 16
+    ncm = 3 if quick else 24
     core_cap = 300 if quick else 1500
     for mi in range(ncm):
         name = "c21k%d" % mi
